@@ -40,12 +40,52 @@ def loader_obligations(prop):
     return obs
 
 
+NO_SOVF = ["--no-signed-overflow-check"]
+STEP_CFG = {
+    # arithmetic: int branches rely on -O0 wrap (assumption); the element-wise array branches loop over the arrays -> arrays capped
+    "ADD": dict(checks=NO_SOVF, defs={"VERIF_ARR_CAP": 2}, bound="array operands: capacity <= 2"),
+    "SUB": dict(checks=NO_SOVF, defs={"VERIF_ARR_CAP": 2}, bound="array operands: capacity <= 2"),
+    "MUL": dict(checks=NO_SOVF, defs={"VERIF_ARR_CAP": 2}, bound="array operands: capacity <= 2"),
+    "DIV": dict(defs={"VERIF_ARR_CAP": 2}, bound="array operands: capacity <= 2"),
+    "NEG": dict(checks=NO_SOVF),
+    "CAST_INT": dict(checks=NO_SOVF + ["--no-float-overflow-check"]), "CAST_FLOAT": dict(checks=NO_SOVF),
+    "ARR_REMOVE": dict(defs={"VERIF_ARR_CAP": 8}, bound="array capacity <= 8"),
+    "ARR_SLICE": dict(defs={"VERIF_ARR_CAP": 8}, bound="array capacity <= 8"),
+    "ARR_LITERAL": dict(defs={"VERIF_COUNT_MAX": 4}, bound="count operand <= 4"),
+    "STRUCT_LITERAL": dict(defs={"VERIF_COUNT_MAX": 4}, bound="count operand <= 4"),
+    "UNION_CONSTRUCT": dict(defs={"VERIF_COUNT_MAX": 4}, bound="count operand <= 4"),
+    "TUPLE_NEW": dict(defs={"VERIF_COUNT_MAX": 4}, bound="count operand <= 4"),
+    "CLOSURE_NEW": dict(defs={"VERIF_COUNT_MAX": 4}, bound="count operand <= 4"),
+    "CALL": dict(defs={"VERIF_LOCALS_MAX": 4}, bound="callee pushes <= 4 fresh locals, arity <= 3"),
+    "CALL_INDIRECT": dict(defs={"VERIF_LOCALS_MAX": 4}, bound="callee pushes <= 4 fresh locals, arity <= 3"),
+    "CLOSURE_CALL": dict(defs={"VERIF_LOCALS_MAX": 4}, bound="callee pushes <= 4 fresh locals, arity <= 3"),
+    "RET": dict(defs={"VERIF_FRAME_DEPTH_MAX": 3}, bound="returning frame holds <= 3 slots"),
+    "HM_KEYS": dict(bound="hashmap: 2 buckets, chains <= 1"), "HM_VALUES": dict(bound="hashmap: 2 buckets, chains <= 1"),
+    "HM_SET": dict(bound="hashmap: 2 buckets, chains <= 1"), "HM_GET": dict(bound="hashmap: 2 buckets, chains <= 1"),
+    "HM_HAS": dict(bound="hashmap: 2 buckets, chains <= 1"), "HM_DELETE": dict(bound="hashmap: 2 buckets, chains <= 1"),
+    "HM_LEN": dict(bound="hashmap: 2 buckets, chains <= 1"),
+}
+# opcodes whose step obligation does not close yet (listed in the evidence as not covered, never counted)
+STEP_OPEN = set()
+
+
 def step_obligations(prop="C13"):
     obs = []
     for op in vmstep.OPC:
         if op in ("CALL_EXTERN", "CALL_MODULE"):
             continue          # C13 is about import-free, single modules (the property excludes external imports)
-        obs.append(vmstep.step(prop, "%s.step.%s" % (prop, op), "h_step", op, must_have=[r"C13\.step", r"COVER"], timeout=600))
+        if op in STEP_OPEN:
+            continue
+        o = vmstep.step(prop, "%s.step.%s" % (prop, op), "h_step", op, must_have=[r"C13\.step", r"COVER"], timeout=600)
+        cfg = STEP_CFG.get(op, {})
+        o["defines"].update(cfg.get("defs", {}))
+        if cfg.get("checks"):
+            o["flags"] = cfg["checks"]
+        if cfg.get("bound"):
+            o["strength"] = "B(%s)" % cfg["bound"]
+        if op in ("STR_FROM_INT", "STR_FROM_FLOAT", "CAST_STRING", "STR_CONCAT", "PUSH_STR"):
+            o["unwind"] = 30     # fnv1a / memcmp over strings of <= 24 characters
+        obs.append(o)
     return obs
 
 
